@@ -27,7 +27,7 @@ O_CREAT = 0o100
 O_TRUNC = 0o1000
 O_ACCMODE = 3
 
-ERRNO = {"EPERM": 1, "ENOENT": 2, "EINTR": 4, "EPIPE": 32, "EIO": 5, "EACCES": 13, "EXDEV": 18, "EMFILE": 24, "ENOSPC": 28,
+ERRNO = {"EPERM": 1, "ENOENT": 2, "EINTR": 4, "EPIPE": 32, "EINVAL": 22, "EFBIG": 27, "ENOSYS": 38, "EOPNOTSUPP": 95, "EAGAIN": 11, "EIO": 5, "EACCES": 13, "EXDEV": 18, "EMFILE": 24, "ENOSPC": 28,
          "EROFS": 30, "EDQUOT": 122}
 
 
@@ -523,9 +523,18 @@ def run_breadlog(root, check=False, plan=None, knobs=None, binary=None):
     res = RunResult()
     res.root = root
     t0 = time.monotonic()
+    pre = None
+    if knobs.get("inherit_ignored"):
+        # started the way a background job of a non-interactive shell, nohup or a supervisor starts it: the stop signals are
+        # inherited as "ignored"
+        sigs = list(knobs["inherit_ignored"])
+
+        def pre():
+            for s in sigs:
+                signal.signal(s, signal.SIG_IGN)
     try:
         p = subprocess.Popen(argv, cwd=cwd, env=env, stdin=subprocess.DEVNULL, stdout=subprocess.PIPE,
-                             stderr=subprocess.PIPE)
+                             stderr=subprocess.PIPE, preexec_fn=pre)
     except OSError as e:
         raise HarnessError("cannot start breadlog: %s" % e)
     try:
